@@ -55,6 +55,9 @@ theorem Ext.upd {p : Params} {s x x' : St} (h : Ext p s x) (h1 : x'.log = x.log)
 @[simp] theorem setReturned_mon (s : St) (t : Nat) : (setReturned s t).mon = s.mon := by
   unfold setReturned; split <;> rfl
 
+@[simp] theorem bcast_log (s : St) : (bcast s).log = s.log := rfl
+@[simp] theorem bcast_mon (s : St) : (bcast s).mon = s.mon := rfl
+
 theorem ext_refl (p : Params) (s : St) : Ext p s s := .same rfl rfl
 
 theorem ext_newTask (p : Params) (s : St) (k : List Body) : Ext p s (newTask p s k).1 :=
@@ -191,6 +194,7 @@ theorem ext_clientStep {p : Params} {s : St} {c : Client} {r : St × Client} (hr
       · exact .emit _ (.same rfl rfl)
       · exact .same rfl rfl
       · exact .same rfl rfl
+      · exact .same rfl rfl
   case sub t =>
     simp only [clientStep, List.mem_map] at hr
     obtain ⟨q, hq, rfl⟩ := hr
@@ -234,6 +238,16 @@ theorem ext_clientStep {p : Params} {s : St} {c : Client} {r : St × Client} (hr
     · simp at hr; subst hr; exact .emit _ (.same rfl rfl)
     · simp at hr
   case wz =>
+    simp only [clientStep] at hr
+    split at hr
+    · simp at hr; subst hr; exact .same rfl rfl
+    · simp at hr
+  case wa n =>
+    simp only [clientStep] at hr
+    split at hr
+    · simp at hr
+    · split at hr <;> (simp at hr; subst hr; exact .same rfl rfl)
+  case waSleep n =>
     simp only [clientStep] at hr
     split at hr
     · simp at hr; subst hr; exact .same rfl rfl
